@@ -436,11 +436,26 @@ pub fn exec_op(sim: &Sim, op: &Op, in_cb: bool) {
         Op::Update(id) => {
             let Some(h) = handle(sim) else { return };
             let Some((tok, inserted, enabled, indet)) = sim.st.borrow().srcs.get(id).and_then(|s| s.token.map(|t| (t, s.inserted, s.enabled, s.indeterminate))) else { return };
-            // update() of a disabled source is outside the documented protocol
+            let own = in_own_processing(sim, *id);
+            // update() of a disabled source: whether it reports Ok or an error is not
+            // specified, but it is not enable(): the source stays disabled (C07)
             if inserted && !enabled && !indet {
+                if own || matches!(sim.st.borrow().srcs.get(id).map(|s| &s.k), Some(K::Trans(_)) | Some(K::Comp(_))) {
+                    return;
+                }
+                let Some(_r) = guarded(sim, "update", || h.update(&tok)) else { return };
+                let fault = std::mem::replace(&mut sim.hk.borrow_mut().fault_window, false);
+                let mut st = sim.st.borrow_mut();
+                let s = st.srcs.get_mut(id).unwrap();
+                // the source's reregister() may or may not have been called
+                s.exp[1] = s.sh.rereg.get();
+                if fault {
+                    s.indeterminate = true;
+                }
+                drop(st);
+                sim.probe("update_while_disabled");
                 return;
             }
-            let own = in_own_processing(sim, *id);
             let Some(r) = guarded(sim, "update", || h.update(&tok)) else { return };
             let fault = std::mem::replace(&mut sim.hk.borrow_mut().fault_window, false);
             if !inserted {
@@ -488,6 +503,14 @@ pub fn exec_op(sim: &Sim, op: &Op, in_cb: bool) {
             let mut st = sim.st.borrow_mut();
             let Some(s) = st.srcs.get_mut(id) else { return };
             if let K::Life(l) = &mut s.k {
+                // the second child gets every other ping
+                if l.two && l.pending && !l.pending2 {
+                    let Some(h) = l.handles2.first().cloned() else { return };
+                    l.pending2 = true;
+                    drop(st);
+                    h.ping();
+                    return;
+                }
                 let Some(h) = l.handles.first().cloned() else { return };
                 l.pending = true;
                 drop(st);
@@ -1142,6 +1165,7 @@ pub fn env_allowed(op: &Op) -> bool {
             | Op::AdapterPeerWrite(..)
             | Op::AdapterPeerRead(..)
             | Op::AdapterPeerClose(_)
+            | Op::AdapterPeerLastWords(..)
             | Op::PingChild(..)
             | Op::PeerWriteChild(..)
             | Op::Raise(_)
